@@ -219,7 +219,7 @@ pub fn c15(cx: &RunCtx) {
     let none: [Kind; 0] = [];
     // (i64, number)
     if cx.wants("i64") || cx.wants("number") {
-        let a: Vec<String> = ["2", "3", "7", "21", "@", "+", "-", "*", "/", "%", "^", "!", "(", ")", ",", "abs(", "sgn(", "min(", "max(", "mod(", "pow(", "²"]
+        let a: Vec<String> = ["2", "3", "7", "21", "9007199254740993", "9223372036854775807", "@", "+", "-", "*", "/", "%", "^", "!", "(", ")", ",", "abs(", "sgn(", "min(", "max(", "mod(", "pow(", "²"]
             .iter()
             .map(|s| s.to_string())
             .collect();
